@@ -101,3 +101,55 @@ def packet_header(lenfmt, tag, n, hint):
     if w == 0:
         return octet(0x80 | (tag << 2) | 3)
     return octet(0x80 | (tag << 2) | old_lentype(w)) + be(n, w)
+
+
+# ---- whole packet headers (4.2): helpers used by the parse contracts
+def header_tag(o0):
+    if o0 & 0x40:
+        return o0 & 0x3F
+    return (o0 & 0x3C) >> 2
+
+
+def header_lenwidth(o0):
+    """old format: width of the length field announced by the length-type bits (0 = indeterminate)"""
+    lt = o0 & 3
+    if lt == 0:
+        return 1
+    if lt == 1:
+        return 2
+    if lt == 2:
+        return 4
+    return 0
+
+
+def header_partial(o):
+    return (o[0] & 0x40) != 0 and len(o) >= 2 and is_partial(o[1])
+
+
+def header_complete(o):
+    if o[0] & 0x40:
+        return len(o) >= 2 and len(o) >= 1 + decode_new_size(o[1:])
+    return len(o) >= 1 + header_lenwidth(o[0])
+
+
+def header_size(o):
+    if o[0] & 0x40:
+        return 1 + decode_new_size(o[1:])
+    return 1 + header_lenwidth(o[0])
+
+
+def header_body_length(o):
+    if o[0] & 0x40:
+        return decode_new_value(o[1:])
+    w = header_lenwidth(o[0])
+    if w == 0:
+        return len(o) - 1
+    return b2i(o[1:1 + w])
+
+
+def header_is_canonical(o):
+    """the received header is the one the encoder of 4.2 would emit for (format, tag, length, width)"""
+    if o[0] & 0x40:
+        return new_length(decode_new_value(o[1:])) == o[1:1 + decode_new_size(o[1:])]
+    w = header_lenwidth(o[0])
+    return w > 0
